@@ -204,10 +204,20 @@ def spec(draw, pairs=None):
 
 
 # ---- printers -----------------------------------------------------------------------------
+LEAD0 = False      # when set, decimal numbers that cannot be read as octal (they contain an 8 or a 9) are written with a leading zero
+
+
+def dec(v):
+    t = str(v)
+    if LEAD0 and ("8" in t or "9" in t):
+        return ("-0" + t[1:]) if v < 0 else ("0" + t)
+    return t
+
+
 def num_intel(v, style=0):
     if style == 1:
         return ("-0x%x" % -v) if v < 0 else ("0x%x" % v)
-    return str(v)
+    return dec(v)
 
 
 def mem_intel(o, style=0):
@@ -256,13 +266,13 @@ def op_att(o):
     if o[0] == "reg":
         return "%" + o[1]
     if o[0] == "imm":
-        return "$" + str(o[1])
+        return "$" + dec(o[1])
     if o[0] == "rel":
-        return str(o[1])
+        return dec(o[1])
     _, size, seg, base, index, scale, disp = o
     s = (("%" + seg + ":") if seg else "")
     if disp or not (base or index):
-        s += str(disp)
+        s += dec(disp)
     if base or index:
         s += "(" + (("%" + base) if base else "")
         if index:
